@@ -577,6 +577,7 @@ def run(run, tier):
                 pass
         broken.append(('proof', 'theorem over the generated right-hand sides no longer checks: %s; %s' % (where or 'see log', props.get('log', '')[-300:].replace('\n', ' '))))
     from . import c08t; c08t.part(run, EoN, tier, props, report, CASES)      # tree clause, algebraic part: Props/C08t.v + its ties and failing-input search
+    C.extra_props(run, 'C08', props, ['C08tree'])
     # 3. ties
     n_eval = 0; n_distinct = 0; samples = []; dist = {}
     tie = wt = None
